@@ -3,6 +3,7 @@ mod common;
 mod cost;
 mod jura;
 mod perf;
+mod sched;
 mod server;
 mod strategy;
 mod uist;
@@ -27,6 +28,7 @@ fn main() {
                 "broker" => broker::gen(seed, cases, &a[5], &a[6]),
                 "cost" => cost::gen(seed, cases, &a[5], &a[6]),
                 "perf" => perf::gen(seed, cases, &a[5], &a[6]),
+                "sched" => sched::gen(seed, cases, &a[5], &a[6]),
                 "strategy" => strategy::gen(seed, cases, &a[5], &a[6]),
                 "jura" => jura::gen(seed, cases, &a[5], &a[6]),
                 "server-uist" => server::gen(false, seed, cases, &a[5], &a[6]),
@@ -39,6 +41,7 @@ fn main() {
             "broker" => broker::run(&a[3], &a[4], &a[5]),
             "cost" => cost::run(&a[3], &a[4], &a[5]),
             "perf" => perf::run(&a[3], &a[4], &a[5]),
+            "sched" => sched::run(&a[3], &a[4], &a[5]),
             "strategy" => strategy::run(&a[3], &a[4], &a[5]),
             "jura" => jura::run(&a[3], &a[4], &a[5]),
             "server-uist" => server::run::<rotala::http::uist::AppState>(&a[3], &a[4], &a[5]),
